@@ -5,7 +5,7 @@ table of the graph-route node builder (arrival sides, flipped pushes, complement
 lockstep, the order prune(available) -> build -> finish -> prune(all) -> return; and the pruning itself: find_link's table
 (which index, which strand, under which strandedness), get_valid_exts / fix_exts keep an extension exactly when it resolves to
 an available node, sequence_of_path spells merged nodes with a K-1 overlap."""
-from .. import dt_compress, dt_tables, dt_graph
+from .. import lemmas, dt_strings, dt_compress, dt_tables, dt_graph
 from . import common
 
 ASSUMPTIONS = ["the input graph is valid (extensions symmetric); rows marked ⊥ are outside that precondition"]
@@ -31,3 +31,6 @@ def run(F, rep):
     # "compressing the one-k-mer-per-node graph gives the same partition as compressing the k-mer table directly": the entry points of the
     # k-mer route, including the one that finds the extensions itself
     rep.run(dt_compress.entry_points_table, F, rep, "C09.8")
+    # every node sequence is stored through PackedDnaStringSet::add (and whatever DnaString operation it appends with)
+    rep.run(dt_strings.packed_set_add, F, rep, "C09.9")
+    rep.run(lemmas.dnastring_lemmas, F, rep, which={"push", "extend"})
